@@ -2785,8 +2785,17 @@ class Cond(Generic[X, R], GFI[X, R]):
         else:
             # The discard holds the values that were visible under the old condition.
             merged_discard, _ = self.merge(discard, discard_, tr.check)
-        return (
-            CondTr(self, check, [new_tr, new_tr_]),
+        new_cond_tr = CondTr(self, check, [new_tr, new_tr_])
+        # When the branch taken changes (e.g. a mixture indicator outside this
+        # Cond was resampled) the weight is the density ratio between the new
+        # and the old visible trace, not the within-branch weight.
+        weight = jnp.where(
+            check == tr.check,
             jnp.where(check, w, w_),
+            tr.get_score() - new_cond_tr.get_score(),
+        )
+        return (
+            new_cond_tr,
+            weight,
             merged_discard,
         )
